@@ -10,6 +10,8 @@ pub mod c09;
 pub mod c10;
 pub mod c11;
 pub mod c17;
+pub mod c18;
+pub mod c20;
 pub mod common;
 pub mod rig;
 pub mod robs;
@@ -32,6 +34,8 @@ pub fn dispatch(ctx: &Ctx) -> Option<i32> {
         "C13" => c13_check(ctx),
         "C19" => c19_check(ctx),
         "C17" => c17_check(ctx),
+        "C18" => c18_check(ctx),
+        "C20" => c20_check(ctx),
         "C15" => c15_check(ctx),
         "C16" => c16_check(ctx),
         "C14" => c14_check(ctx),
@@ -437,6 +441,36 @@ fn c17_check(ctx: &Ctx) -> i32 {
         rule: "one case = one history: an Owner on endpoint A, 1-2 local lock clones and 0-2 clones on endpoint B (own or shared cache), each running a script of 1-7 reads (hold 0-10 virtual ms), writes (hold 0-5 ms, commit or drop) and pauses. Non-trivial iff at least two operations of different clients overlap in logical time. Distinct by hash of the recorded history.".into(),
         explanation: "Recorded on a global logical clock at the client boundary: request, guard obtained (with the value seen), guard released / commit returned. Oracles: no write guard interval overlaps any other guard interval; the value never changes under a read guard; every value read is the initial one or a committed one, not older than a commit that completed before the read began (no stale read), never an uncommitted one; after everything completed a final read returns the last committed value; no request is pending at quiescence although every guard was released.".into(),
         assumptions: vec!["exclusion and freshness judged on logical time at the client boundary (sound because the owner grants a write only after every copy was dropped)".into(), "deterministic virtual-time leg only (no multi-thread leg yet)".into()],
+        exhaustive: false,
+        min_nontrivial: ctx.tier.pick(300, 3000),
+        extra: BTreeMap::new(),
+    };
+    finish(ctx, agg, rep)
+}
+
+fn c18_check(ctx: &Ctx) -> i32 {
+    let budget = Duration::from_secs(ctx.tier.pick(30, 360));
+    let agg = shard_runs(ctx, "main", ctx.tier.pick(16_000, 2_000_000), budget, Duration::from_secs(30), Arc::new(c18::run_one));
+    let rep = Report {
+        level: "exploration",
+        rule: "one case = one stream over an rch::io channel: sized or unsized; total length 0, 1, chunk_size-1/=/+1, receive_buffer-1/=/+1, 2*receive_buffer+chunk_size+3 or random up to 20000 bytes of pseudo-random data; both halves local, sender transferred, receiver transferred, or both transferred over two different connections; the writer runs a script of write calls (sizes 0, 1, chunk_size, chunk_size+1, receive_buffer+1, everything left, random; 8% of them dropped after 0-3 polls), flushes and pauses, writes all or (20%) only a part of the declared length, tries to write beyond a sized length, and ends with shutdown / flush+drop / drop; the reader reads with 1-5 cyclic buffer sizes (0, 1, chunk_size, chunk_size+1, receive_buffer+1, random), optionally dropping 10% of its read futures after 0-3 polls; in 25% of the remote runs the connection is cut (sink error, stream error, EOF) at a random frame. Non-trivial iff bytes were accepted, the ending is not a plain shutdown, or a cut was armed. Distinct by hash(placement, mode, lengths, ending, cut, outcome).".into(),
+        explanation: "Recorded at the AsyncWrite/AsyncRead boundary: bytes accepted per write call, flush/shutdown results, bytes obtained per read call, the reader's final verdict. Oracles: the bytes read are a prefix of the bytes accepted; a successful end of file only after exactly the size fixed at creation (sized) or the size announced by a successful shutdown (unsized), and it stays end of file; nothing is accepted beyond a sized length; shutdown of a sized sender that wrote less fails; Sender::bytes_written() equals the accepted total; an empty write/read transfers nothing; on an undisturbed stream the reader's verdict is determined (complete -> EOF, unfinished -> error, every flushed byte read) and neither side is pending at quiescence; after a cut both sides end (error or, if everything had arrived, success).".into(),
+        assumptions: vec!["`flushed` (bytes followed by a successful flush/shutdown) is a lower bound of what was transmitted; verdicts that depend on unflushed bytes are not judged".into(), "single-thread virtual-time leg".into()],
+        exhaustive: false,
+        min_nontrivial: ctx.tier.pick(300, 3000),
+        extra: BTreeMap::new(),
+    };
+    finish(ctx, agg, rep)
+}
+
+fn c20_check(ctx: &Ctx) -> i32 {
+    let budget = Duration::from_secs(ctx.tier.pick(30, 360));
+    let agg = shard_runs(ctx, "main", ctx.tier.pick(12_000, 2_000_000), budget, Duration::from_secs(30), Arc::new(|run, seed| if run % 2 == 0 { c20::run_handles(run, seed) } else { c20::run_lazy(run, seed) }));
+    let rep = Report {
+        level: "exploration",
+        rule: "even runs = one handle history: 2-4 endpoints joined by 1-3 connections (line or triangle), three values of one type behind handles (two created on endpoint 0, one on endpoint 1; with or without provider), 4-27 random operations: clone, transfer over a link in either direction, drop, drop the provider, use through a cast to another type (and cast back), into_inner, as_ref/as_mut; then release: every handle dropped in random order, or provider plus the handles at home dropped while handles on other endpoints stay alive. Odd runs = one lazy transfer: Lazy<Item> or LazyBlob of length 0, 1, chunk_size-1/=/+1, receive_buffer-1/=/+1, 3*receive_buffer+5 or random up to 30000 bytes, forwarded 1-4 hops over the same topologies (possibly back to its origin), provider kept / keep()-style / dropped before the fetch, 1-3 concurrent fetchers for blobs (get twice, or get then into_inner), in 25% of the runs one of the connections on the path is cut (sink error, stream error, EOF) at a random frame during the fetch. Non-trivial iff a handle was transferred / always for lazy runs. Distinct by hash of the operation log with outcomes / (kind, length, path, provider, cut).".into(),
+        explanation: "Handles: each value identifies itself and counts its destruction. An access returning Ok must happen on the creating endpoint, at the original type, before the value was taken, and must yield exactly that value; any access on another endpoint, through a cast, or after into_inner must be an error; a handle that never left its endpoint must work; no access is pending at quiescence; the value is not destroyed while a native handle is alive, and is destroyed exactly once after every handle everywhere is gone, or after the provider and the handles at home are gone (handles left on other endpoints must not resolve afterwards). Lazy: a fetched value/blob equals what was provided byte for byte (LazyBlob::len too), repeated fetches agree, a fetch after the provider was dropped is an error, a fetch over an undisturbed path succeeds, a fetch across a cut connection is an error or the exact value, never a prefix, and is not pending at quiescence.".into(),
+        assumptions: vec!["whether a handle that returns to its creating endpoint over another connection, or as the second of several remote clones, resolves is not judged (recorded in home_refusals / resolved_lineages)".into(), "single-thread virtual-time leg".into()],
         exhaustive: false,
         min_nontrivial: ctx.tier.pick(300, 3000),
         extra: BTreeMap::new(),
